@@ -31,6 +31,8 @@ inductive In
   | rfErr
   | retryExceeded
   | userReset (inConnect : Bool)
+  | resetInLocate               -- a user reset that lands while a discovery (the pump's own or async_connect's) is in flight;
+                                -- the step ends when that discovery has returned on a healthy network
 deriving Repr, DecidableEq
 
 def resetR (s : R) : R := { s with st := "IDLE", descriptors := false, facade := false, spaAlive := false }
@@ -42,10 +44,20 @@ def connectR (s : R) (outcome : Option Bool) : R :=
   | some true => { s with st := "CONNECTED", descriptors := true, facade := true, spaAlive := true }
   | some false => { s with st := stateOnRetryExceeded, descriptors := true, spaAlive := true }
 
+/-- the end of `async_locate_spas`: `self._spa_descriptors = locator.spas`, then LOCATING_FINISHED, which moves the manager
+to `stateOnLocatingFinished` - from any state, or only from the generated guard states when the branch has a guard -/
+def locateFinish (s : R) : R :=
+  let s := { s with descriptors := true }
+  if locatingFinishedGuard.isEmpty || locatingFinishedGuard.contains s.st then { s with st := stateOnLocatingFinished } else s
+
+/-- a whole `async_locate_spas`: LOCATING_STARTED, the discovery (during which a user reset may land), the end -/
+def locateR (s : R) (resetInFlight : Bool) : R :=
+  let s := { s with st := stateOnLocatingStarted }
+  locateFinish (if resetInFlight then resetR s else s)
+
 def pumpR (s : R) (outcome : Option Bool) : R :=
   if !s.pump then s else
-  let s1 := if pumpLocateStates.contains s.st && !s.descriptors
-            then { s with st := stateOnLocatingFinished, descriptors := true } else s
+  let s1 := if pumpLocateStates.contains s.st && !s.descriptors then locateR s false else s
   if pumpConnectStates.contains s1.st && !s1.facade then connectR s1 outcome else s1
 
 def step (s : R) : In → R
@@ -57,6 +69,7 @@ def step (s : R) : In → R
   | .rfErr => if s.spaAlive && s.st == "CONNECTED" then { s with st := stateOnRfError } else s
   | .retryExceeded => if s.spaAlive then { s with st := stateOnRetryExceeded } else s
   | .userReset inConnect => { resetR s with pump := s.pump && (!inConnect || pumpCatchesExceptions) }
+  | .resetInLocate => if s.pump then locateR s true else resetR s
 
 def run (s : R) : List In → R
   | [] => s
@@ -73,7 +86,8 @@ def allR : List R :=
   stateNames.flatMap fun st => bools.flatMap fun d => bools.flatMap fun f => bools.flatMap fun a => bools.map fun p => ⟨st, d, f, a, p⟩
 
 def allIn : List In :=
-  [.pumpTurn true, .pumpTurn false, .pumpTurnHandshakeFails, .ping true, .ping false, .rfErr, .retryExceeded, .userReset true, .userReset false]
+  [.pumpTurn true, .pumpTurn false, .pumpTurnHandshakeFails, .ping true, .ping false, .rfErr, .retryExceeded, .userReset true, .userReset false,
+   .resetInLocate]
 
 /-- coherence of reachable records: the facts the code maintains between macro steps -/
 def Coherent (s : R) : Bool :=
